@@ -200,6 +200,15 @@ def err_class(e):
     return type(e).__name__
 
 
+def _attr_call(obj, name, args):
+    """was this call issued in attribute syntax (proto.apply_call's deterministic choice)?"""
+    import proto
+    try:
+        return name in ("dgetitem", "dsetitem", "ddelitem") and proto._attr_form(obj, args[0]) and proto._form(list(args), 3) == 0
+    except Exception:  # noqa: BLE001
+        return False
+
+
 class Shadow:
     """Replays a structured program on the real classes and on plain shadows."""
 
@@ -453,6 +462,8 @@ class Shadow:
                 prop = (("C02", "C03") + (("C04",) if multi else ())) if not is_mut else ("C03",)
                 if not is_mut and rp == exp:
                     prop = prop + ("C12",)
+                if _attr_call(obj, name, args):
+                    prop = prop + ("C18",)      # the call was made as `obj.key`: it must be `obj[key]`
                 self.v(prop, "%s%r returned %r, expected %r" % (name, tuple(plain_args), rp, exp))
         # --- backend content
         sh = self.shadow.get(res, MISSING)
@@ -461,6 +472,8 @@ class Shadow:
                 self.v("C01", "%s returned but the resource does not exist" % name)
             elif sh is MISSING or not strict_eq(after_file, sh):
                 prop = ("C01", "C03") + (("C04",) if (obj is not root or len(self.objs) > 1) else ())
+                if _attr_call(obj, name, args):
+                    prop = prop + ("C18",)
                 if sh is not MISSING and (after_file == sh or name in ("dreset", "lreset")):
                     # (reset: the accepted value IS the whole content - it is not what is stored)
                     prop = prop + ("C12",)
